@@ -65,7 +65,7 @@ let () =
              | "Q" -> let a = q4 () in let b = q4 () in Printf.printf "%s %s\n" (hex (qdot fops a b)) (hex (qnorm2 fops a))
              | _ -> let n = ni () in let a = List.init n (fun _ -> nf ()) in let b = List.init n (fun _ -> nf ()) in
                Printf.printf "%s %s\n" (hex (vec_inner fops a b)) (hex (vec_inner fops a a)))
-         | "CD" | "CW" | "HB" | "FV" ->
+         | "CD" | "CW" | "HB" | "FV" | "ML" ->
            let kind = next () in let wc = nf () in let n = ni () in
            let k = (match kind with
                | "distance" | "eulerTheta" | "polarTheta" | "tilt" | "orientationAngle" | "dihedralCoeff2" -> KScalar
@@ -98,6 +98,11 @@ let () =
              (match hr_energy fops pi kk ww k a b, hr_force fops pi kk ww k a b with
               | Some e, Some f -> Printf.printf "%s %s\n" (hex e) (pv f)
               | _ -> Printf.printf "typeerror\n")
+           end else if w.(0) = "ML" then begin
+             let ww = nf () in let sg = nf () in let a = rd () in let b = rd () in
+             (match hill_energy fops pi ww sg k a b, hill_force fops pi ww sg k a b with
+              | Some e, Some f -> Printf.printf "%s %s\n" (hex e) (pv f)
+              | _ -> Printf.printf "typeerror\n")
            end else if w.(0) = "FV" then begin
              let dt = nf () in let a = rd () in let b = rd () in
              (match fd_velocity fops pi dt k a b with
@@ -112,7 +117,7 @@ let () =
            end else begin
              let a = rd () in Printf.printf "%s\n" (pv (comp_wrap fops k a))
            end
-         | "SUM" -> let n = ni () in
+         | "SUM" | "SUMM" -> let n = ni () in
            (* keyword rank = position in the alphabetical (std::map) order of the component keywords *)
            let rank kw = (match kw with "angle" -> 0 | "dihedral" -> 1 | "distance" -> 2 | "distanceZ" -> 3 | "eulerPhi" -> 4
                                      | "polarPhi" -> 5 | _ -> 6) in
@@ -122,8 +127,14 @@ let () =
                let per = per_kw || (kw = "distanceZ" && pp <> 0.0) in
                { sc_per = per; sc_P = (if per_kw then 360.0 else if per then pp else 0.0); sc_wc = (if per then wc else 0.0);
                  sc_coeff = co; sc_exp = z_of_int ex; sc_rank = z_of_int (rank kw) }) in
+           let l0 = sum_creation_order comps in
+           (* SUMM: the component number jc (creation order) gets a new period (0 = unchanged; only given for distanceZ) and coefficient *)
+           let l = if w.(0) = "SUMM" then begin
+               let jc = ni () in let pn = nf () in let cn = nf () in
+               let rec nat_of n = if n <= 0 then O else S (nat_of (n - 1)) in
+               sum_history l0 [((nat_of jc, (if pn <> 0.0 then Some pn else None)), cn)]
+             end else l0 in
            let x1 = nf () in let x2 = nf () in let xw = nf () in
-           let l = sum_creation_order comps in
            let k = sum_kind fops l in
            let (fl_, pp, cc) = (match sum_periodic fops l with Some (pp, cc) -> (1.0, pp, cc) | None -> (0.0, 0.0, 0.0)) in
            let sv v = (match v with VS x -> hex x | _ -> "?") in
@@ -131,6 +142,10 @@ let () =
             | Some d, Some g, Some rg ->
               Printf.printf "%s %s %s %s %s %s %s\n" (hex fl_) (hex pp) (hex cc) (hex d) (sv g) (sv rg) (sv (comp_wrap fops k (VS xw)))
             | _ -> Printf.printf "typeerror\n")
+         | "OK" -> let pp = nf () in let c = nf () in let h = nf () in let kc = nf () in let sg = nf () in let cut2 = nf () in let vac = nf () in let x = nf () in
+           (match opes_kernel fops pi h sg cut2 vac (KPeriodic (pp, c)) kc x with
+            | Some v -> Printf.printf "%s %s\n" (hex v) (hex v)
+            | None -> Printf.printf "typeerror\n")
          | "HW" -> let pp = nf () in let c = nf () in let kk = nf () in let ww = nf () in let lk = nf () in let uk = nf () in
            let lo = nf () in let up = nf () in let x = nf () in
            let k = if pp <> 0.0 then KPeriodic (pp, c) else KScalar in
